@@ -464,6 +464,11 @@ func c18Failure(c *Ctx) {
 	}
 	c.R.Fn(fname(step))
 	scope := []*ssa.Function{step}
+	for _, f := range pkgClosure(step) {
+		if f != step && prog.PkgOf(f) == "core" {
+			scope = append(scope, f) // helpers Step is split into; Bindings.Copy (package match) stays a leaf
+		}
+	}
 	var actErr ssa.Value
 	ssau.Instrs(step, func(in ssa.Instruction) {
 		if ex, ok := in.(*ssa.Extract); ok && ex.Index == 1 {
